@@ -1,4 +1,5 @@
 import QibProofs.Lemmas.LatticeSpec
+import QibProofs.Lemmas.LatticeBrickExtra
 import Mathlib.Data.Real.Basic
 import Mathlib.Tactic.Linarith
 /-!
@@ -16,7 +17,8 @@ Vocabulary (defined in the lemma files, restated by the `C14_spec_…` theorems 
 * `OfcNN`               doubled coordinates: grid neighbours among vertices, or face centre ↔ corner (±1 in both).
 * `BrickNN dsq r c r' c'` brick wall on a square grid: all links along axis `dsq`, the links starting at even `r+c` on the other.
 * `hexDist4 conv a b`   four times the squared Euclidean distance of two hexagonal coordinates.
-* `Lat.WF`              what the constructors guarantee (validated customized matrix; brick/hexagonal extents ≥ 1).
+* `Lat.WF`              what the constructors guarantee (validated customized matrix; odd-face-centred: no periodic axis
+                        of extent 1) plus brick/hexagonal extents ≥ 1.
 * `Lat.entry l i j`     entry `(i, j)` of `l.adjMatrix` (the matrix the driver prints).
 * `Lat.NN l a b`        the nearest-neighbour relation of class `l` on coordinates, recursive through layers.
 
@@ -24,7 +26,8 @@ Status of the two defects found for this property (`known_findings.json`, both r
 repaired code): self-loops for a periodic axis of extent 1 – excluded by `C14_adj_diag_zero` for every class; diagonal
 links of the triangular lattice wrapping over an open axis – excluded by `C14_triangular_adj_iff_nn` (`DStep` wraps only
 if the axis is periodic). Nothing in this file is partial; the only standing hypotheses are `Lat.WF` (brick/hexagonal
-extents ≥ 1, customized matrix validated by its constructor) and index ranges `i < nsites`.
+extents ≥ 1, customized matrix validated by its constructor, odd-face-centred lattice without a periodic axis of extent 1 –
+its constructor refuses those) and index ranges `i < nsites`.
 -/
 namespace Qib.Lattice
 open Lat
@@ -79,6 +82,9 @@ theorem C14_spec_ofcNN (n0 n1 : Nat) (pbc : List Bool) (a b : Nat × Nat) :
     OfcNN n0 n1 pbc a b ↔
       (a.1 % 2 = 0 ∧ b.1 % 2 = 0 ∧ GridNN [n0, n1] pbc [a.1 / 2, a.2 / 2] [b.1 / 2, b.2 / 2]) ∨
       (a.1 % 2 ≠ b.1 % 2 ∧ (a.1 + 1 = b.1 ∨ b.1 + 1 = a.1) ∧ (a.2 + 1 = b.2 ∨ b.2 + 1 = a.2)) := Iff.rfl
+
+theorem C14_spec_noTrivialWrap (shape : List Nat) (pbc : List Bool) :
+    NoTrivialWrap shape pbc ↔ ∀ d, d < shape.length → pbc.getD d false = true → shape.getD d 1 ≠ 1 := Iff.rfl
 
 theorem C14_spec_brickNN (dsq r c r' c' : Nat) :
     BrickNN dsq r c r' c' ↔
@@ -158,13 +164,20 @@ theorem C14_mkOfc_WF (shape : List Nat) (p : PbcSpec) (l : Lat) (h : mkOfc shape
       · next hc =>
         simp only [Except.ok.injEq] at h
         subst h
-        refine ⟨trivial, n0, n1, pbc, rfl, rfl, ?_, ?_⟩
-        · intro hp0
+        have h0 : pbc.getD 0 false = true → n0 % 2 = 0 := by
+          intro hp0
           simp only [hp0, Bool.and_true, Bool.or_eq_true, beq_iff_eq, Bool.and_eq_true, not_or] at hc
           omega
-        · intro hp1
+        have h1 : pbc.getD 1 false = true → n1 % 2 = 0 := by
+          intro hp1
           simp only [hp1, Bool.and_true, Bool.or_eq_true, beq_iff_eq, Bool.and_eq_true, not_or] at hc
           omega
+        refine ⟨?_, n0, n1, pbc, rfl, rfl, h0, h1⟩
+        intro d hd hp
+        have hd' : d = 0 ∨ d = 1 := by simp at hd; omega
+        rcases hd' with rfl | rfl
+        · have := h0 hp; simp only [List.getD_cons_zero]; omega
+        · have := h1 hp; simp only [List.getD_cons_succ, List.getD_cons_zero]; omega
   · simp at h
 
 theorem C14_mkBrick_WF (m n : Nat) (pt del : Bool) (conv : Conv) (l : Lat) (hm : 1 ≤ m) (hn : 1 ≤ n)
@@ -360,15 +373,23 @@ theorem C14_triangular_adj_iff_nn_2d (n0 n1 : Nat) (p0 p1 : Bool) (i j : Nat) (h
       exact hne (hij.mpr e)
 
 /-- odd-face-centred lattice (doubled coordinates `ofcCoord`): two vertices that are grid neighbours, or a face centre
-and one of the four corners of its face -/
-theorem C14_ofc_adj_iff_nn (n0 n1 : Nat) (pbc : List Bool) (i j : Nat)
+and one of the four corners of its face. The code writes every pair of the periodic wrap without an `i != j` test; it is
+the constructor's refusal of periodic axes of odd extent (`C14_mkOfc_WF` ⇒ `NoTrivialWrap`) that keeps the diagonal zero. -/
+theorem C14_ofc_adj_iff_nn (n0 n1 : Nat) (pbc : List Bool) (hw : NoTrivialWrap [n0, n1] pbc) (i j : Nat)
     (hi : i < ofcNsites n0 n1) (hj : j < ofcNsites n0 n1) :
     (Lat.ofc n0 n1 pbc).i2c (i : Int) = .ok [((ofcCoord n0 n1 i).1 : Int), ((ofcCoord n0 n1 i).2 : Int)] ∧
     ((Lat.ofc n0 n1 pbc).entry i j = 1 ↔ OfcNN n0 n1 pbc (ofcCoord n0 n1 i) (ofcCoord n0 n1 j)) := by
-  refine ⟨i2c_coord (.ofc n0 n1 pbc) trivial i hi, ?_⟩
+  refine ⟨i2c_coord (.ofc n0 n1 pbc) hw i hi, ?_⟩
   rw [entry_eq_one _ hi hj]
-  simp only [Lat.adj, ofcAdj_iff]
+  simp only [Lat.adj, ofcAdj_iff n0 n1 pbc hw]
   exact ⟨fun h => h.2.2, fun h => ⟨hi, hj, h⟩⟩
+
+/-- the hypothesis `NoTrivialWrap` cannot be dropped: the adjacency loop itself would make the single site of a periodic
+axis of extent 1 its own neighbour – and the constructor refuses exactly such lattices -/
+theorem C14_ofc_needs_constructor_check :
+    (Lat.ofc 1 2 [true, false]).entry 0 0 = 1 ∧ mkOfc [1, 2] (.per [true, false]) = .error .valueError ∧
+    mkOfc [3, 2] (.all true) = .error .valueError := by
+  refine ⟨by decide, rfl, rfl⟩
 
 /-- `nsites` = vertices + numbered faces; a vertex site sits at `(x, y)`, a face site at the centre `(x+½, y+½)` of a
 face with `x + y` even inside the rectangle, and every such face has exactly one site (injectivity: section 2) -/
@@ -401,11 +422,11 @@ theorem C14_ofc_sites (n0 n1 : Nat) :
 
 /-- face centre ↔ its four corners: the face site at `(x+½, y+½)` is linked with vertex `j` iff `j` is one of
 `(x, y), (x, y+1), (x+1, y), (x+1, y+1)`; two face sites are never linked -/
-theorem C14_ofc_face_corners (n0 n1 : Nat) (pbc : List Bool) (i j x y : Nat)
+theorem C14_ofc_face_corners (n0 n1 : Nat) (pbc : List Bool) (hw : NoTrivialWrap [n0, n1] pbc) (i j x y : Nat)
     (hi : i < ofcNsites n0 n1) (hj : j < ofcNsites n0 n1) (hf : ofcCoord n0 n1 i = (2 * x + 1, 2 * y + 1)) :
     (Lat.ofc n0 n1 pbc).entry i j = 1 ↔
       j < n0 * n1 ∧ (j / n1 = x ∨ j / n1 = x + 1) ∧ (j % n1 = y ∨ j % n1 = y + 1) := by
-  rw [(C14_ofc_adj_iff_nn n0 n1 pbc i j hi hj).2, hf]
+  rw [(C14_ofc_adj_iff_nn n0 n1 pbc hw i j hi hj).2, hf]
   by_cases hv : j < n0 * n1
   · have hcj : ofcCoord n0 n1 j = (2 * (j / n1), 2 * (j % n1)) := by simp [ofcCoord, hv]
     rw [hcj]
@@ -465,6 +486,54 @@ theorem C14_brick_deleted_adj_iff_nn (b : Brick) (hm : 1 ≤ b.m) (hn : 1 ≤ b.
   refine ⟨n1, ?_⟩
   rw [(C14_brick_adj_iff_nn b hm hn i j hi hj).2]
   exact ⟨fun h => h.1, fun h => ⟨h, n1, n2⟩⟩
+
+/-- `delete = True` is `delete = False` renumbered: the two `np.delete` calls skip exactly the two surplus grid points
+(`renum` is strictly increasing and never hits one), and they remove no link -/
+theorem C14_brick_delete_is_renumbering (m n : Nat) (conv : Conv) (hm : 1 ≤ m) (hn : 1 ≤ n) (i j : Nat)
+    (hi : i < (Lat.brick ⟨m, n, true, conv⟩).nsites) (hj : j < (Lat.brick ⟨m, n, true, conv⟩).nsites) :
+    (Brick.renum ⟨m, n, true, conv⟩ i) < (Lat.brick ⟨m, n, false, conv⟩).nsites ∧
+    (i < j → Brick.renum ⟨m, n, true, conv⟩ i < Brick.renum ⟨m, n, true, conv⟩ j) ∧
+    (Lat.brick ⟨m, n, true, conv⟩).entry i j =
+      (Lat.brick ⟨m, n, false, conv⟩).entry (Brick.renum ⟨m, n, true, conv⟩ i) (Brick.renum ⟨m, n, true, conv⟩ j) := by
+  have hns := (⟨m, n, true, conv⟩ : Brick).nsites_eq hm hn
+  have hns' := (⟨m, n, false, conv⟩ : Brick).nsites_eq hm hn
+  have hlt : ∀ a, a < (⟨m, n, true, conv⟩ : Brick).nsites →
+      Brick.renum ⟨m, n, true, conv⟩ a < (⟨m, n, false, conv⟩ : Brick).nsites := by
+    intro a ha
+    simp only [Bool.false_and, Bool.false_eq_true, if_false] at hns'
+    rw [hns']
+    unfold Brick.renum
+    cases hx : (⟨m, n, true, conv⟩ : Brick).hasExtra
+    · simp only [hx, Bool.and_false, Bool.false_eq_true, if_false] at hns ⊢
+      rw [hns] at ha; exact ha
+    · simp only [hx, Bool.and_self, if_true] at hns ⊢
+      rw [hns] at ha
+      exact (Brick.undelete_facts ⟨m, n, true, conv⟩ hm hn hx rfl a ha).2.1
+  refine ⟨hlt i hi, ?_, ?_⟩
+  · intro hij
+    unfold Brick.renum
+    split
+    · exact Brick.undelete_lt_of_lt _ hij
+    · exact hij
+  · rw [entry_eq _ hi hj, entry_eq _ (hlt i hi) (hlt j hj)]
+    have e : (Lat.brick ⟨m, n, true, conv⟩).adj i j =
+        (Lat.brick ⟨m, n, false, conv⟩).adj (Brick.renum ⟨m, n, true, conv⟩ i) (Brick.renum ⟨m, n, true, conv⟩ j) :=
+      Brick.adj_delete_eq m n conv hm hn i j hi hj
+    rw [e]
+
+/-- every grid point of the embedding square grid that is not a deleted surplus point is the coordinate of a site, and
+`coord_to_index` finds that site (coordinate → index → coordinate) -/
+theorem C14_brick_gridpoint_is_site (b : Brick) (hm : 1 ≤ b.m) (hn : 1 ≤ b.n) (r c : Nat) (hr : r < b.R) (hc : c < b.C)
+    (hx : b.delete = true → ¬ b.isExtra r c) :
+    ∃ i, i < b.nsites ∧ (Lat.brick b).i2c (i : Int) = .ok [(r : Int), (c : Int)] ∧
+      (Lat.brick b).c2i false [(r : Int), (c : Int)] = .ok (some (i : Int)) := by
+  obtain ⟨i, hi, rfl, rfl⟩ := Brick.gridpoint_is_site b hm hn r c hr hc hx
+  exact ⟨i, hi, i2c_coord (.brick b) ⟨hm, hn⟩ i hi, Brick.c2i_i2c b hm hn i hi⟩
+
+/-- `delete = True`: `coord_to_index` answers `None` for the two surplus grid points -/
+theorem C14_brick_deleted_point_none (b : Brick) (hm : 1 ≤ b.m) (hn : 1 ≤ b.n) (hd : b.delete = true) (r c : Nat)
+    (hx : b.isExtra r c) : (Lat.brick b).c2i false [(r : Int), (c : Int)] = .ok none :=
+  Brick.c2i_extra b hm hn hd r c hx
 
 /-- hexagonal lattice, both conventions: `adj[i, j] = 1` iff the coordinates returned by `index_to_coord` are at
 Euclidean distance 1 (exact encoding; see `C14_spec_hexDist4_real`) -/
